@@ -33,6 +33,10 @@ TYPES += [hl(*([INT] * n)) for n in (4, 6)]
 # a reference component at every position of every arity (what a per-position slip in a generated TupleN would hit)
 TYPES += [tup(*([sl(INT)] * n)) for n in range(2, 22)]
 TYPES += [hl(*([ptr(INT)] * n)) for n in (2, 3, 5)]
+# a container directly over a library value type (Option, hlist.Cons, tuple) that itself holds references: an element-wise
+# fast path that misjudges such elements as plain would copy them shallowly
+TYPES += [sl(opt(ptr(INT))), seq(opt(sl(INT))), sl(opt(sl(INT))), seq(hl(sl(INT), INT)), sl(hl(ptr(INT))), seq(tup(ptr(INT), INT)),
+          sl(opt(gm(INT))), seq(opt(ptr(sl(INT)))), gm(opt(sl(INT))), ptr(opt(sl(INT))), opt(hl(sl(INT)))]
 
 
 def tid(t):
